@@ -86,6 +86,16 @@ Definition local_class (last : option (conn * smsg)) (s : scope) (m' : smsg) : P
               get_field (s_fields m') F_REPLY_SERIAL = Some (VNum 117 (s_serial m)) /\
               (s_type m' = 2 \/ s_type m' = 3).
 
+(* the addressed recipient of a message whose DESTINATION is a unique name: only ever the connection
+   that was given that very name (by Hello: names are issued nowhere else); and if the bus finds
+   nobody, then indeed no connection has that name *)
+Definition addr_ok (v : conn -> cstatus) (s : scope) (m' : smsg) : Prop :=
+  match s with
+  | SRouted _ (ATo r) => exists d, str_field m' F_DESTINATION = Some d /\ v r = CNamed d
+  | SRouted _ ANobody => exists d, str_field m' F_DESTINATION = Some d /\ forall r, v r <> CNamed d
+  | _ => True
+  end.
+
 (* one emitted message, given who is who and which message is being handled.
    [strict]: the literal property; otherwise the exception classes are spelled out. *)
 Definition emit_ok (strict : bool) (v : conn -> cstatus) (last : option (conn * smsg))
@@ -93,7 +103,7 @@ Definition emit_ok (strict : bool) (v : conn -> cstatus) (last : option (conn * 
   match o with
   | ODriver => defined_only m' /\ sender_is m' drv_name
   | OClient c =>
-      defined_only m' /\
+      defined_only m' /\ addr_ok v s m' /\
       match s with
       | SReleased _ =>
           (* a message the bus kept while a service was being started: it is something this very
@@ -141,7 +151,7 @@ Section Recipients.
 
   Definition recipients (s : scope) (m : smsg) : list conn :=
     match s with
-    | SRouted c => route c m ++ monitors
+    | SRouted c _ => route c m ++ monitors
     | SMonitors => monitors
     | SMatches c => matches c m
     | STo c => c :: monitors
